@@ -13,8 +13,12 @@ Case kinds
            allele entry point, then mutated through the public setters (u_a, u_d, beta, u_misc, trait)
            and queried again after every assignment; model and Spec are recomputed from the NEW
            parameters, and predict(Xstar rows) must equal gebv / gegv on the same object
+  refit    a fitted rrBLUP object is queried, then `fit_numpy` is called THROUGH THAT OBJECT with new data
+           (other size, other markers); the second model must be the fit of the new data alone, the first
+           must be untouched and share no array with the second, also after assigning to the setters
 """
 import contextlib
+import json
 from fractions import Fraction
 
 import numpy
@@ -55,6 +59,8 @@ def _mods():
         m.GM = gm.DenseGenotypeMatrix
         m.PGM = pgm.DensePhasedGenotypeMatrix
         m.TBV = tbv.TrueBreedingValue
+        import pybrops.popgen.bvmat.DenseBreedingValueMatrix as bvm
+        m.BVM = bvm.DenseBreedingValueMatrix
         _mods_cache = m
     return _mods_cache
 
@@ -131,7 +137,8 @@ class C04(Prop):
             "public setters u_a / u_d / beta / u_misc / trait on one model object, every entry point re-queried "
             "after each.  Non-trivial = lin case with >= 2 taxa "
             "carrying different dosage rows and a non-zero effect; alleles case with a polymorphic marker and a "
-            "non-zero effect; gs case with >= 2 unknowns and >= 1 sweep; ml0/fit case with >= 2 polymorphic markers; requery case "
+            "non-zero effect; gs case with >= 2 unknowns and >= 1 sweep; ml0/fit case with >= 2 polymorphic markers; refit case whose "
+            "second data set differs and has a polymorphic marker; requery case "
             "with >= 2 distinct dosage rows and an assignment that changes a coefficient matrix")
     TRUSTED = [
         "scipy Nelder-Mead ML step and numpy.linalg.eigh of rrBLUP_ML0: entered as an oracle (the ridge varE/varU "
@@ -267,7 +274,16 @@ class C04(Prop):
         n = rng.choice([2, 3, 4, 5, 6, 7, 9, 12, 14])
         t = rng.choice([1, 1, 2])
         Z, Y = self._train(rng, n, p, t)
-        return {"kind": "fit", "Z": Z, "Y": canon.enc(Y), "via": rng.choice(["fit_numpy", "fit_numpy", "fit"])}
+        return {"kind": "fit", "Z": Z, "Y": canon.enc(Y), "via": rng.choice(["fit_numpy", "fit_numpy", "fit", "fit_bvm"])}
+
+    def _refit_case(self, rng):
+        t = rng.choice([1, 1, 2])
+        Z1, Y1 = self._train(rng, rng.choice([3, 4, 6, 8]), rng.choice([1, 2, 3, 4]), t)
+        same = rng.random() < 0.5       # same shapes: the case in which a stale cache goes unnoticed by shape checks
+        n2 = len(Z1) if same else rng.choice([3, 5, 7])
+        p2 = len(Z1[0]) if same else rng.choice([1, 2, 3, 5])
+        Z2, Y2 = self._train(rng, n2, p2, t)
+        return {"kind": "refit", "Z1": Z1, "Y1": canon.enc(Y1), "Z2": Z2, "Y2": canon.enc(Y2)}
 
     def _requery_case(self, rng):
         ploidy = rng.choice([1, 2, 2, 2, 3, 4])
@@ -343,11 +359,14 @@ class C04(Prop):
              "beta": [[1, 0]], "ua": [[1, 2], [-2, 0]], "ud": None, "um": [[1, 1]], "Zm": [[1], [2]],
              "taxa": ["b", "a"], "grp": [1, 1], "X": [[1], [1]], "Y": [[1, 0], [3, 2]],
              "steps": [{"set": "u_misc", "value": [[-2, 3]]}, {"set": "u_a", "value": [[0, 1], [4, -1]]}]},
+            # refit through a fitted object: same shapes, different data (monomorphic column moves)
+            {"kind": "refit", "Z1": [[0, 1, 2], [1, 1, 2], [2, 0, 2], [1, 2, 2]], "Y1": [[1], [2], [4], [3]],
+             "Z2": [[1, 1, 0], [1, 0, 2], [1, 2, 1], [1, 1, 1]], "Y2": [[5], [1], [0], [2]]},
         ] + self._finding_cases()
 
     @staticmethod
     def _finding_cases():
-        """n > p training sets on which gauss_seidel stops at maxiter = 1000 far from the solution (D-C04-1)"""
+        """n > p training sets on which gauss_seidel stops at maxiter = 1000 far from the solution (D22)"""
         return [
             # two identical markers, three records: 1000 sweeps cover 4 % of the way to the solution
             {"kind": "fit", "via": "fit_numpy", "Z": [[1, 1], [0, 0], [1, 1]], "Y": [[4], [5], [4]]},
@@ -369,8 +388,10 @@ class C04(Prop):
                 out.append(self._gs_case(rng))
             elif r < 0.78:
                 out.append(self._ml0_case(rng))
-            elif r < 0.88:
+            elif r < 0.87:
                 out.append(self._requery_case(rng))
+            elif r < 0.91:
+                out.append(self._refit_case(rng))
             else:
                 out.append(self._fit_case(rng))
         return out
@@ -436,6 +457,9 @@ class C04(Prop):
         S["bulmer_raw"] = canon.enc(add.bulmer(raw, ploidy))
         S["score"] = canon.enc(add.score(Y, X, pg))
         S["score_raw"] = canon.enc(add.score(Y, X, raw))
+        bvm = m.BVM.from_numpy(Y.copy(), taxa=pg.taxa, taxa_grp=pg.taxa_grp, trait=trait)
+        S["score_bvm"] = canon.enc(add.score(bvm, X, pg))
+        obs["bvm"] = {"mat": canon.enc(bvm.mat), "loc": canon.enc(bvm.location), "scale": canon.enc(bvm.scale)}
         if ud is not None:
             dom = m.DOM(beta=beta, u_misc=None, u_a=ua, u_d=ud, trait=trait)
             V["gegv_phased"] = _bv(dom.gegv(pg))
@@ -459,6 +483,9 @@ class C04(Prop):
             S["var_G_unphased"] = canon.enc(dom.var_G(ug))
             S["var_A_dom"] = canon.enc(dom.var_A(pg))
             S["score_dom"] = canon.enc(dom.score(Y, X, ug))
+            S["score_dom_bvm"] = canon.enc(dom.score(bvm, X, pg))
+            S["var_a_dom"] = canon.enc(dom.var_a(pg))
+            S["bulmer_dom"] = canon.enc(dom.bulmer(ug))
         obs["inputs_untouched"] = bool((snap[0] == pg.mat).all() and (snap[1] == ug.mat).all()
                                        and (snap[2] == raw).all() and (snap[3] == beta).all() and (snap[4] == ua).all())
         obs["trait"] = [str(x) for x in trait]
@@ -513,12 +540,61 @@ class C04(Prop):
             if case.get("via") == "fit":
                 gmat = m.GM(numpy.array(case["Z"], dtype="int8"), ploidy=2)
                 mod = m.RR.fit(Y, None, gmat)
+            elif case.get("via") == "fit_bvm":     # phenotypes handed over as a breeding value matrix
+                gmat = m.GM(numpy.array(case["Z"], dtype="int8"), ploidy=2)
+                mod = m.RR.fit(m.BVM.from_numpy(Y.copy()), None, gmat)
             else:
                 mod = m.RR.fit_numpy(Y, None, Z)
         finally:
             m.rr.rrBLUP_ML0 = inner
         return {"beta": canon.enc(mod.beta), "u_a": canon.enc(mod.u_a), "ridges": [r["ridge"] for r in rec],
                 "sols": [r["uhat"] for r in rec], "class": type(mod).__name__}
+
+    def _fit_recorded(self, m, caller, Y, Z):
+        rec = []
+        inner = m.rr.rrBLUP_ML0
+
+        def recorder(*a, **k):
+            out = inner(*a, **k)
+            rec.append({"ridge": canon.enc(m.rr.rrBLUP_ML0_calc_ridge(out["varE"], out["varU"])),
+                        "uhat": canon.enc(out["uhat"])})
+            return out
+        m.rr.rrBLUP_ML0 = recorder
+        try:
+            mod = caller.fit_numpy(Y, None, Z)
+        finally:
+            m.rr.rrBLUP_ML0 = inner
+        return mod, [r["ridge"] for r in rec], [r["uhat"] for r in rec]
+
+    def _run_refit(self, case):
+        m = _mods()
+        t = len(case["Y1"][0])
+        Z1 = numpy.array(case["Z1"], dtype=float)
+        Z2 = numpy.array(case["Z2"], dtype=float)
+        Y1, Y2 = _farr(case["Y1"], t), _farr(case["Y2"], t)
+        snap = (Z1.copy(), Y1.copy())
+        m1, rid1, sol1 = self._fit_recorded(m, m.RR, Y1, Z1)
+        first = {"beta": canon.enc(m1.beta), "u_a": canon.enc(m1.u_a), "ridges": rid1, "sols": sol1}
+        g1 = m.GM(numpy.array(case["Z1"], dtype="int8"), ploidy=2)
+        g2 = m.GM(numpy.array(case["Z2"], dtype="int8"), ploidy=2)
+        gebv1_before = canon.enc(m1.gebv(g1).unscale())
+        m2, rid2, sol2 = self._fit_recorded(m, m1, Y2, Z2)          # refit THROUGH the fitted object
+        second = {"beta": canon.enc(m2.beta), "u_a": canon.enc(m2.u_a), "ridges": rid2, "sols": sol2,
+                  "class": type(m2).__name__}
+        obs = {"first": first, "second": second,
+               "first_after": {"beta": canon.enc(m1.beta), "u_a": canon.enc(m1.u_a)},
+               "gebv1_before": gebv1_before, "gebv1_after": canon.enc(m1.gebv(g1).unscale()),
+               "gebv2": canon.enc(m2.gebv(g2).unscale()),
+               "predict2": canon.enc(m2.predict(numpy.ones((Z2.shape[0], 1)), g2).unscale()),
+               "distinct_objects": m2 is not m1,
+               "shares_memory": bool(numpy.shares_memory(m1.u_a, m2.u_a) or numpy.shares_memory(m1.beta, m2.beta)),
+               "training_data_untouched": bool((snap[0] == Z1).all() and (snap[1] == Y1).all())}
+        # assigning to the first object must not leak into the second
+        m1.u_a = numpy.full_like(m1.u_a, 7.0)
+        m1.beta = numpy.full_like(m1.beta, -3.0)
+        obs["second_after_setters"] = {"beta": canon.enc(m2.beta), "u_a": canon.enc(m2.u_a)}
+        obs["gebv2_after_setters"] = canon.enc(m2.gebv(g2).unscale())
+        return obs
 
     def _query(self, m, add, dom, case, pg, ug, raw, X, Y, Zm):
         """every prediction / statistics / allele entry point of the SAME model objects"""
@@ -564,7 +640,12 @@ class C04(Prop):
                 V["predict_dom_xstar"] = _bv(dom.predict(Xs, ug))  # must equal gegv on the same object
                 S["score_dom"] = canon.enc(dom.score(Y, X, ug))
         al = {fn: canon.enc(getattr(add, fn)(pg)) for fn in self._ALLELE_FNS}
-        return {"views": V, "stats": S, "alleles": al}
+        try:        # predict(cvobj, GenotypeMatrix) passes only the dosage columns: shape check with u_misc
+            add.predict(X, pg)
+            rej = False
+        except ValueError:
+            rej = True
+        return {"views": V, "stats": S, "alleles": al, "predict_gm_rejects": rej}
 
     @staticmethod
     def _stage_params(case):
@@ -646,6 +727,25 @@ class C04(Prop):
 
     _FINITE_KEYS = {"gs": ("x",), "ml0": ("betahat", "uhat", "ridge"), "fit": ("beta", "u_a", "ridges", "sols")}
 
+    def _refit_requests(self, case, obs):
+        reqs = []
+        for Zk, Yk, ok in (("Z1", "Y1", "first"), ("Z2", "Y2", "second")):
+            Z, Y, o = case[Zk], case[Yk], obs[ok]
+            p, t = len(Z[0]), len(Y[0])
+            reqs.append({"op": "c04.fitwrap", "Y": Y, "Z": Z, "p": p, "t": t, "sols": o["sols"]})
+            reqs.append({"op": "c04.spec_fit", "Y": Y, "Z": Z, "p": p, "t": t, "ridges": o["ridges"],
+                         "atol": canon.enc(Fraction(ATOL)), "reltol": canon.enc(RELTOL), "beta": o["beta"],
+                         "u_a": o["u_a"], "check_normal_eq": False})
+        # the prediction path of the fitted objects: GEBV = fitted intercept + Z · fitted effects
+        for Zk, ok, views in (("Z1", "first", ("gebv1_before", "gebv1_after")),
+                              ("Z2", "second", ("gebv2", "predict2", "gebv2_after_setters"))):
+            g = [case[Zk]]                      # one "phase" carrying the dosage
+            vs = [{"mode": "gebv", "g": g, "out": obs[v], "name": v, "labelled": False,
+                   "taxa_out": None, "grp_out": None} for v in views]
+            reqs.append({"op": "c04.spec_values", "beta": obs[ok]["beta"], "ua": obs[ok]["u_a"],
+                         "t": len(obs[ok]["beta"][0]), "ploidy": 2, "views": vs})
+        return reqs
+
     _RQ_MODE = {"gebv_phased": "gebv", "gebv_raw": "gebv", "gebv_tbv": "gebv", "gegv_additive": "gebv",
                 "gebv_numpy": "gebv_numpy", "gebv_baseclass": "gebv", "predict_phased": "predict",
                 "predict_raw": "predict", "predict_xstar": "gebv", "gegv_phased": "gegv", "gegv_unphased": "gegv",
@@ -661,9 +761,10 @@ class C04(Prop):
     _RQ_STAT_MISC = {"score_numpy_misc": "score", "score_numpy_dom_misc": "score_dom"}
 
     def _requery_requests(self, case, par, stg):
-        """7 requests per stage: model (plain / misc-augmented), Spec values (plain / misc), Spec stats
-        (plain / misc), alleles model + Spec.  Miscellaneous random effects enter the definitions as extra
-        fixed-effect columns: X' = [X | Zm], beta' = [beta ; u_misc]."""
+        """8 requests per stage: model (plain; with u_misc / Z_misc through `predictNumpyMisc`), Spec values
+        (plain / misc), Spec stats (plain / misc), alleles model + Spec.  In the *Spec* miscellaneous random
+        effects enter the definitions as extra fixed-effect columns X' = [X | Zm], beta' = [beta ; u_misc]
+        (an independent route to the same numbers)."""
         common = {"ua": par["u_a"], "t": case["t"], "ploidy": case["ploidy"]}
         if par["u_d"] is not None:
             common["ud"] = par["u_d"]
@@ -687,7 +788,9 @@ class C04(Prop):
         al = {"ua": par["u_a"], "ploidy": case["ploidy"], "g": case["g"]}
         return [
             {"op": "c04.lin", **common, "beta": par["beta"], "g": case["g"], "X": case["X"], "Y": case["Y"]},
-            {"op": "c04.lin", **common, "beta": beta2, "g": case["g"], "X": X2, "Y": case["Y"]},
+            {"op": "c04.lin", **common, "beta": par["beta"], "g": case["g"], "X": case["X"], "Y": case["Y"],
+             "um": par["u_misc"] if par["u_misc"] is not None else [],
+             "Zm": case["Zm"] if case["Zm"] is not None else [[] for _ in case["X"]]},
             {"op": "c04.spec_values", **common, "beta": par["beta"], "views": va},
             {"op": "c04.spec_values", **common, "beta": beta2, "views": vb},
             {"op": "c04.spec_stats", **common, "beta": par["beta"], "g": case["g"], "X": case["X"], "Y": case["Y"], "stats": sa},
@@ -707,11 +810,17 @@ class C04(Prop):
             perm = case["perm"]
             stats = dict(obs["stats"])
             return [
-                {"op": "c04.lin", **common, "g": case["g"], "X": case["X"], "Y": case["Y"]},
+                {"op": "c04.lin", **common, "g": case["g"], "X": case["X"], "Y": case["Y"],
+                 "bv_mat": obs["bvm"]["mat"], "bv_loc": obs["bvm"]["loc"], "bv_scale": obs["bvm"]["scale"]},
                 {"op": "c04.lin", **common, "g": _gperm(case["g"], perm), "X": [case["X"][i] for i in perm]},
                 {"op": "c04.spec_values", **common, "views": self._views(case, obs)},
                 {"op": "c04.spec_stats", **common, "g": case["g"], "X": case["X"], "Y": case["Y"], "stats": stats},
             ]
+        if k == "refit":
+            bad = ("nan", "inf", "-inf")
+            if any(x in json.dumps(obs) for x in ('"nan"', '"inf"', '"-inf"')):
+                return []
+            return self._refit_requests(case, obs)
         if k == "requery":
             reqs = []
             for par, stg in zip(self._stage_params(case), obs["stages"]):
@@ -781,7 +890,9 @@ class C04(Prop):
             stat_key = {"var_A": "var_A", "var_G_add": "var_A", "var_A_raw": "var_A", "var_a": "var_a",
                         "var_a_raw": "var_a", "var_a_baseclass": "var_a", "afreq": "afreq", "bulmer": "bulmer",
                         "bulmer_raw": "bulmer", "score": "score", "score_raw": "score", "var_G": "var_G",
-                        "var_G_unphased": "var_G", "var_A_dom": "var_A", "score_dom": "score_dom"}
+                        "var_G_unphased": "var_G", "var_A_dom": "var_A", "score_dom": "score_dom",
+                        "score_bvm": "score_bv", "score_dom_bvm": "score_dom", "var_a_dom": "var_a",
+                        "bulmer_dom": "bulmer"}
             for name, val in S.items():
                 want = base[stat_key[name]]
                 want = ["nan" if w is None else w for w in want]
@@ -793,7 +904,9 @@ class C04(Prop):
             dup_ok = True
             dup_bad = []
             for name, ref in (("var_A_raw", "var_A"), ("var_a_raw", "var_a"), ("var_a_baseclass", "var_a"),
-                              ("bulmer_raw", "bulmer"), ("score_raw", "score"), ("var_G_unphased", "var_G")):
+                              ("bulmer_raw", "bulmer"), ("score_raw", "score"), ("var_G_unphased", "var_G"),
+                              ("score_bvm", "score"), ("score_dom_bvm", "score_dom"), ("var_a_dom", "var_a"),
+                              ("bulmer_dom", "bulmer")):
                 if name in S and not self._cl(S[name], S[ref]):
                     dup_ok = False
                     dup_bad.append(name)
@@ -804,6 +917,36 @@ class C04(Prop):
             return {"corr": corr, "spec": spec, "nontrivial": nontriv,
                     "detail": f"lin corr_bad={bad} spec_values=[{sv['detail']}] spec_stats=[{ss['detail']}] "
                               f"dup_bad={dup_bad} untouched={obs['inputs_untouched']}"}
+        if k == "refit":
+            if not answers:
+                return {"corr": False, "spec": False, "nontrivial": True, "detail": "refit: non-finite value"}
+            w1, s1, w2, s2, v1, v2 = A
+            f, sc = obs["first"], obs["second"]
+            cbad = []
+            for tag, o, w in (("first", f, w1), ("second", sc, w2)):
+                if not (self._cl(o["beta"], w["beta"]) and canon.close_enc(o["u_a"], w["u_a"], rel=0, abs_=0)):
+                    cbad.append(tag + ".wrapper")
+            sbad = []
+            for tag, r in (("first.fit", s1), ("second.fit", s2), ("first.gebv", v1), ("second.gebv", v2)):
+                if not r["ok"]:
+                    sbad.append(tag + "[" + r["detail"] + "]")
+            if obs["first_after"] != {"beta": f["beta"], "u_a": f["u_a"]}:
+                sbad.append("first model changed by the refit")
+            if obs["second_after_setters"] != {"beta": sc["beta"], "u_a": sc["u_a"]}:
+                sbad.append("second model changed by assignments to the first")
+            if obs["gebv1_before"] != obs["gebv1_after"]:
+                sbad.append("gebv of the first model changed by the refit")
+            if obs["gebv2"] != obs["gebv2_after_setters"]:
+                sbad.append("gebv of the second model changed by assignments to the first")
+            if not self._cl(obs["gebv2"], obs["predict2"]):
+                sbad.append("predict(ones) != gebv on the refitted model")
+            for key, want in (("distinct_objects", True), ("shares_memory", False), ("training_data_untouched", True)):
+                if obs[key] is not want:
+                    sbad.append(key)
+            if sc["class"] != "rrBLUPModel0":
+                cbad.append("class")
+            return {"corr": not cbad, "spec": not sbad, "nontrivial": sum(w2["ispoly"]) >= 1 and case["Z1"] != case["Z2"],
+                    "detail": f"refit corr_bad={cbad} spec_bad={sbad[:6]}"}
         if k == "requery":
             pars = self._stage_params(case)
             bad, sbad = [], []
@@ -811,8 +954,11 @@ class C04(Prop):
                 m1, m2, sva, svb, ssa, ssb, mal, sal = A[8 * si: 8 * si + 8]
                 tag = "stage%d" % si + ("" if si == 0 else "[%s]" % case["steps"][si - 1]["set"])
                 for name, v in stg["views"].items():
-                    src = m2 if name in self._RQ_MISC else m1
-                    if not self._cl(v["mat"], src[self._RQ_MODELKEY[self._RQ_MODE[name]]]):
+                    if name in self._RQ_MISC:
+                        want = m2[{"predict_numpy_misc": "predict_misc", "predict_numpy_dom_misc": "predict_dom_misc"}[name]]
+                    else:
+                        want = m1[self._RQ_MODELKEY[self._RQ_MODE[name]]]
+                    if not self._cl(v["mat"], want):
                         bad.append(tag + "." + name)
                     if "trait" in v and v["trait"] != par["trait"]:
                         bad.append(tag + "." + name + ".trait")
@@ -821,13 +967,15 @@ class C04(Prop):
                     if name in self._RQ_STAT:
                         want = m1[self._RQ_STAT[name]]
                     else:
-                        want = m2[self._RQ_STAT_MISC[name]]
+                        want = m2[self._RQ_STAT_MISC[name] + "_misc"]
                     if not self._cl(val, ["nan" if w is None else w for w in want]):
                         bad.append(tag + "." + name)
                 for fn in self._ALLELE_FNS:
                     got, want = stg["alleles"][fn], mal[fn]
                     if (not self._cl(got, want)) if fn in ("fafreq", "dafreq") else (got != want):
                         bad.append(tag + "." + fn)
+                if "predict_gm_rejects" in stg and stg["predict_gm_rejects"] != m2["predict_gm_rejects"]:
+                    bad.append(tag + ".predict_gm_rejects")
                 for nm, r in (("values", sva), ("values_misc", svb), ("stats", ssa), ("stats_misc", ssb), ("alleles", sal)):
                     if not r["ok"]:
                         sbad.append(tag + "." + nm + "[" + r["detail"] + "]")
@@ -943,6 +1091,25 @@ class C04(Prop):
                 c = dict(case)
                 c["ud"] = None
                 yield c
+        elif k == "refit":
+            def polyok(Zs):
+                return len(Zs) >= 2 and any(any(r[j] != Zs[0][j] for r in Zs) for j in range(len(Zs[0])))
+            for zk, yk in (("Z1", "Y1"), ("Z2", "Y2")):
+                Z, Y = case[zk], case[yk]
+                for i in range(len(Z)):
+                    keep = [x for x in range(len(Z)) if x != i]
+                    Zs = [Z[x] for x in keep]
+                    if polyok(Zs):
+                        c = dict(case)
+                        c[zk], c[yk] = Zs, [Y[x] for x in keep]
+                        yield c
+                for j in range(len(Z[0])):
+                    if len(Z[0]) > 1:
+                        Zs = [[v for x, v in enumerate(r) if x != j] for r in Z]
+                        if polyok(Zs):
+                            c = dict(case)
+                            c[zk] = Zs
+                            yield c
         elif k == "requery":
             g = case["g"]
             n, p, t = len(g[0]), len(case["ua"]), case["t"]
@@ -1230,6 +1397,73 @@ class C04(Prop):
             out[zero] = 0
             return out
 
+        shape_cache = {}
+
+        def fit_mask_cached(cls, Y, X, Z, *a, **k):
+            """polymorphism mask remembered per genotype shape (stale after a refit with equal shapes)"""
+            Zf = numpy.asarray(Z, dtype=float)
+            key = ("mask", Zf.shape)
+            if key not in shape_cache:
+                shape_cache[key] = ~numpy.all(Zf == Zf[0, :], axis=0)
+            poly = shape_cache[key]
+            if not poly.any():
+                poly = ~numpy.all(Zf == Zf[0, :], axis=0)
+            Yf = numpy.asarray(Y, dtype=float)
+            models = [m.rr.rrBLUP_ML0(Yf[:, i], Zf[:, poly]) for i in range(Yf.shape[1])]
+            beta = numpy.stack([mm["betahat"] for mm in models], axis=1)
+            u_a = numpy.zeros((Zf.shape[1], Yf.shape[1]), dtype=float)
+            u_a[poly, :] = numpy.stack([mm["uhat"] for mm in models], axis=1)
+            return cls(beta=beta, u_misc=None, u_a=u_a)
+
+        def fit_shared_buffer(cls, Y, X, Z, *a, **k):
+            """the effect matrix lives in a buffer reused by later fits of the same shape"""
+            mod = real_fit(cls, Y, X, Z, *a, **k)
+            key = ("buf", mod.u_a.shape)
+            if key in shape_cache:
+                shape_cache[key][...] = mod.u_a
+            else:
+                shape_cache[key] = mod.u_a.copy()
+            mod.u_a = shape_cache[key]
+            return mod
+
+        def ml0_memo(*a, **k):
+            y, Zz = a[0], a[1]
+            key = ("ml0", len(y), Zz.shape)
+            if key not in shape_cache:
+                shape_cache[key] = real_ml0(*a, **k)
+            return shape_cache[key]
+
+        @contextlib.contextmanager
+        def fresh(ctx):
+            shape_cache.clear()
+            with ctx:
+                yield
+            shape_cache.clear()
+
+        real_score = m.ADD.__dict__["score"]
+        real_rrfit = m.RR.__dict__["fit"].__func__
+
+        class _Scaled:
+            """a breeding value matrix whose unscale() forgets location and scale"""
+            def __init__(self, b):
+                self._b = b
+
+            def unscale(self):
+                return self._b.mat
+
+        def score_bvm_scaled(self, ptobj, cvobj, gtobj, **kw):
+            if isinstance(ptobj, m.BVM):
+                ptobj = ptobj.mat            # standardised values used as if they were phenotypes
+            return real_score(self, ptobj, cvobj, gtobj, **kw)
+
+        def fit_bvm_scaled(cls, ptobj, cvobj, gtobj, *a, **k):
+            if isinstance(ptobj, m.BVM):
+                ptobj = ptobj.mat
+            return real_rrfit(cls, ptobj, cvobj, gtobj, *a, **k)
+
+        def u_misc_last(self):
+            return numpy.concatenate([self.u_a, self.u_misc], axis=0)
+
         both = lambda name, fn: (lambda: _both(name, fn))
 
         @contextlib.contextmanager
@@ -1244,6 +1478,9 @@ class C04(Prop):
             ("gebv_population_dosage", both("gebv", gebv_population_dosage)),
             ("gebv_labels_sorted", both("gebv", gebv_sorted_labels)),
             ("predict_drop_fixed_effects", lambda: patch(m.ADD, "predict_numpy", predict_numpy_no_fixed)),
+            ("u_concatenated_in_wrong_order", lambda: patch(m.ADD, "u", property(u_misc_last))),
+            ("score_bvmat_not_unscaled", lambda: patch(m.ADD, "score", score_bvm_scaled)),
+            ("fit_bvmat_not_unscaled", lambda: patch(m.RR, "fit", classmethod(fit_bvm_scaled))),
             # mechanism 2: dominance design
             ("gegv_het_is_any_nonzero", lambda: patch(m.DOM, "gegv", gegv_het_any_nonzero)),
             # mechanism 3: variances, Bulmer, R^2
@@ -1264,6 +1501,9 @@ class C04(Prop):
             ("stale_u_d_after_setter", lambda: patch(m.DOM, "u_d", stale(m.DOM, "u_d", "_c04_ud_cache"))),
             ("stale_trait_labels", lambda: patch(m.ADD, "trait", stale(m.ADD, "trait", "_c04_trait_cache"))),
             ("facount_sign_mask_cached", lambda: patch(m.ADD, "facount", facount_cached_mask)),
+            ("refit_polymorphism_mask_cached", lambda: fresh(patch(m.RR, "fit_numpy", classmethod(fit_mask_cached)))),
+            ("refit_effects_in_shared_buffer", lambda: fresh(patch(m.RR, "fit_numpy", classmethod(fit_shared_buffer)))),
+            ("refit_ml0_memoised_by_shape", lambda: fresh(patch(m.rr, "rrBLUP_ML0", ml0_memo))),
             # mechanism 5: rrBLUP
             ("gs_wrong_sign_lower_part", lambda: patch(m.rr, "gauss_seidel", gs_jacobi_sign)),
             ("gs_stops_after_two_sweeps", lambda: patch(m.rr, "gauss_seidel", gs_two_sweeps)),
